@@ -492,7 +492,10 @@ def _run(case, tree, acc):
                       for fr in reversed(tb) if '/omega/' in fr.filename),
                      None)
         acc.ev()
-        if case.get('may_reject') and isinstance(exc, AssertionError):
+        if case.get('may_reject') and not isinstance(
+                exc, (KeyError, NameError, AttributeError, IndexError)):
+            # a refusal (the pristine tree raises AssertionError; the type
+            # of the exception is not specified)
             acc.count('refused_by_documented_limitation_'
                       + case['may_reject'])
             return
